@@ -56,6 +56,11 @@ def run(tier, corrupt=0):
         zones = ["naive", "UTC", "Asia/Tokyo"] + ([r["tz"]] if r["tz"] != "none" else [])
         r["datetimes"] = [{"wall": w, "tz": z} for w in WALLS[:nwalls] for z in zones
                           if not (w == WALLS[3] and z != "UTC")]   # the fold instant is only given unambiguously (UTC)
+        if r["expr"].startswith("02:30-05:00"):
+            # answers that fall into the hour clocks skip / repeat in the zone of the (aware) input or of the context
+            r["datetimes"] += [{"wall": "2024-03-31T01:00:00", "tz": "Europe/Paris"}, {"wall": "2024-03-10T01:10:00", "tz": "America/New_York"},
+                               {"wall": "2024-10-27T00:30:00", "tz": "Europe/Paris"}, {"wall": "2024-03-30T23:00:00", "tz": "naive"},
+                               {"wall": "2024-11-03T00:20:00", "tz": "America/New_York"}, {"wall": "2024-03-31T00:10:00", "tz": "UTC"}]
         cases.append(r)
     if tier == "thorough":
         # more expressions and instants on every constructor combination that builds an evaluator: the table row says which Rust
